@@ -36,7 +36,7 @@ package backtest
 //@ ensures[C13] "only-asset-events" forall i :: old(nev(b.report)) <= i && i < nev(b.report) ==> 2 <= evkind(b.report, i) && evkind(b.report, i) <= 4
 //@ ensures[C13] "asset-begin-is-closed-by-asset-end" forall i :: old(nev(b.report)) <= i && i < nev(b.report) && evkind(b.report, i) == 2 ==> i + len(b.Strategies) + 1 < nev(b.report) && evkind(b.report, i + len(b.Strategies) + 1) == 4 && evname(b.report, i + len(b.Strategies) + 1) == evname(b.report, i)
 //@ ensures[C13] "one-write-per-strategy-in-order" forall i, m :: old(nev(b.report)) <= i && i < nev(b.report) && evkind(b.report, i) == 2 && i < m && m <= i + len(b.Strategies) ==> evkind(b.report, m) == 3 && evname(b.report, m) == evname(b.report, i) && evstrat(b.report, m) == b.Strategies[m - i - 1]
-//@ ensures[C03] consumed(names) == len(names)
+//@ ensures[C03,C13] "every-queued-asset-is-taken" consumed(names) == len(names)
 // completeness: every asset whose snapshots could be read - however few, none included - is offered to the report
 //@ ensures[C13] "every-readable-asset-is-offered-to-the-report" gcnt(b.report, "natt") - old(gcnt(b.report, "natt")) == gcnt(b.repository, "ngetok") - old(gcnt(b.repository, "ngetok"))
 //@ loop#0 invariant gcnt(b.report, "natt") - old(gcnt(b.report, "natt")) == gcnt(b.repository, "ngetok") - old(gcnt(b.repository, "ngetok"))
@@ -79,6 +79,12 @@ package backtest
 //@ trusted renders a template to a file (text/template, os): outside the verifier's subset
 //@ func HTMLReport.writeReport
 //@ trusted renders a template to a file (text/template, os): outside the verifier's subset
+
+// the start-of-run notification starts the overall ranking afresh: a report object used for a second run does not
+// carry the first run's best results into its index
+//@ func HTMLReport.Begin
+//@ modifies h
+//@ ensures[C13] "ranking-starts-empty" result == nil ==> len(h.bestResults) == 0
 
 //@ func HTMLReport.AssetEnd
 //@ modifies h
